@@ -16,7 +16,7 @@ from mc import drive, util, world
 ID = "C08"
 LEVEL = "model_checking"
 RULE = (
-    "scheme x release mode (discrete at several times / continuous) x death kind (none, IBM age limit, leaving the grid, both) x scalar forcing x "
+    "scheme x direction (forward, time-reversed) x release mode (discrete at several times / continuous) x death kind (none, IBM age limit, leaving the grid, both) x scalar forcing x "
     "duration multiple or not of the period x numrec {1,2,3} x period, and for each scenario EVERY file boundary as restart point; non-trivial = a restart "
     "after which at least one particle is released AND at least one particle has died before the restart; lattice points distinct by construction"
 )
@@ -33,7 +33,7 @@ VARS = ("pid", "X", "Y", "Z", "age", "temp", "tag", "dose", "active")
 
 
 def bounds(tier, seed):
-    return dict(schemes=["EF", "RK2", "RK4"], release=["discrete", "continuous", "late", "gap"], deaths=["none", "ibm", "leave", "both"], scalar=[True], numrec=[1, 2, 3],
+    return dict(schemes=["EF", "RK2", "RK4"], release=["discrete", "continuous", "late", "gap"], deaths=["none", "ibm", "leave", "both"], scalar=[True], numrec=[1, 2, 3], rev=[False, True],
                 nsteps=[12, 13] if tier == "quick" else [8, 12, 13, 17], periods=[2] if tier == "quick" else [1, 2, 3])
 
 
@@ -45,7 +45,8 @@ def cases(tier, seed):
         k += 1
         schemes = b["schemes"] if tier == "thorough" else [b["schemes"][k % 3]]
         for sch in schemes:
-            out.append(dict(scheme=sch, release=rel, death=death, numrec=numrec, nsteps=n, period=P, pvars=bool((k // 2 + k // 7) % 2), packed=bool((k // 3) % 2), other_ref=bool((k // 5) % 2)))
+            for rev in b["rev"]:
+                out.append(dict(scheme=sch, release=rel, death=death, numrec=numrec, nsteps=n, period=P, pvars=bool((k // 2 + k // 7) % 2), packed=bool((k // 3) % 2), other_ref=bool((k // 5) % 2), rev=rev))
     return out
 
 
@@ -64,16 +65,19 @@ def make_world():
 W, BASE = make_world()
 
 
-def frames(nsteps):
+def frames(nsteps, sign=1):
+    """Frames at simulation steps -1, 5, 9, nsteps+2 (time = S0 + sign * step * DT), returned in calendar order.
+    In a time-reversed run ladim negates u and v, so the reversed world stores the negated field: the particles drift the same way."""
     out = []
     for s, c in ((-1, 1.0), (5, 1.5), (9, 0.75), (nsteps + 2, 1.25)):
         off = 200 if s == 5 else 0  # one frame is NOT on the step lattice (mid-interval time stamp)
-        out.append(dict(t=S0 + s * DT + off, u=BASE["u"] * c, v=BASE["v"] * c, temp=BASE["temp"] + s))
-    return out
+        out.append(dict(t=S0 + sign * (s * DT + off), u=sign * BASE["u"] * c, v=sign * BASE["v"] * c, temp=BASE["temp"] + s))
+    return out[::sign]
 
 
 def setup(case, d):
-    fr = frames(case["nsteps"])
+    sign = -1 if case.get("rev") else 1
+    fr = frames(case["nsteps"], sign)
     W.write_file(d / "f_a.nc", fr[:2])
     W.write_file(d / "f_b.nc", fr[2:])
     rows = []
@@ -89,7 +93,7 @@ def setup(case, d):
         sched = [(0, 0, 1), (0, 2, 1), (7, 1, 1)]  # the second file time is NOT on the 3-step tick grid
     for slot, pi, mult in sched:
         x, y, z = pos[pi]
-        rows.append(dict(mult=mult, release_time=world.iso(S0 + slot * DT), X=x, Y=y, Z=z, tag=100 + 10 * slot + pi, weight=1.5 + slot + pi / 8))
+        rows.append(dict(mult=mult, release_time=world.iso(S0 + sign * slot * DT), X=x, Y=y, Z=z, tag=100 + 10 * slot + pi, weight=1.5 + slot + pi / 8))
     rel_extra = dict(continuous=True, release_frequency=3 * DT) if case["release"] == "continuous" else {}
     ibm = dict(module=drive.plug("sibm.py"), age=True, dose=True, settle_age=4 * DT)
     if case["death"] in ("ibm", "both"):
@@ -122,7 +126,8 @@ def released_upto(case, step):
 
 def run_full(case, d):
     rows, rel_extra, ibm, state, pout = setup(case, d)
-    conf = drive.roms_conf(d, d / "f_*.nc", S0, S0 + case["nsteps"] * DT, DT, rows, outvars=VARS, period=case["period"] * DT, numrec=case["numrec"],
+    sign = -1 if case.get("rev") else 1
+    conf = drive.roms_conf(d, d / "f_*.nc", S0, S0 + sign * case["nsteps"] * DT, DT, rows, reversed_=bool(case.get("rev")), outvars=VARS, period=case["period"] * DT, numrec=case["numrec"],
                            tracker=dict(advection=case["scheme"]), state=state, ibm=ibm, particle_out=pout, extra_forcing=["temp"],
                            release_extra=rel_extra, filename="run.nc", reference=S0 - 86400)
     conf["output"]["instance_variables"]["tag"] = world.ovar("i4")
@@ -160,6 +165,7 @@ def run_case(case):
 
     d = util.scratch("c08")
     n, P, r = case["nsteps"], case["period"], case["numrec"]
+    sign = -1 if case.get("rev") else 1
     try:
         conf0, npid_by_step = run_full(case, d)
     except drive.RunFailed as e:
@@ -175,7 +181,7 @@ def run_case(case):
         if "only_boundary" in case and case["only_boundary"] not in (None, k):
             continue
         nrestarts += 1
-        t_restart = S0 + ((k + 1) * r - 1) * P * DT
+        t_restart = S0 + sign * ((k + 1) * r - 1) * P * DT
         try:
             run_restart(case, d, conf0, k, files)
         except drive.RunFailed as e:
@@ -195,11 +201,11 @@ def run_case(case):
         except Exception as e:
             bad("unreadable", repr(e), k)
             continue
-        later = sorted(t for t in by_time if t > t_restart)
+        later = sorted((t for t in by_time if sign * (t - t_restart) > 0), key=lambda t: sign * t)
         got_times = [rec["time"] for rec in rs["records"]]
         missing = [t for t in later if t not in got_times]
         if missing:
-            bad("records:missing", f"records at S+{[(t - S0) / DT for t in missing]} steps exist in the uninterrupted run but not in the restarted one (has S+{[(t - S0) / DT for t in got_times]})", k)
+            bad("records:missing", f"records at steps {[sign * (t - S0) / DT for t in missing]} exist in the uninterrupted run but not in the restarted one (has steps {[sign * (t - S0) / DT for t in got_times]})", k)
         # known-finding discriminator: the restart file no longer holds the highest pid released so far
         idx_last = (k + 1) * r - 1
         pid_true = npid_by_step[idx_last * P]  # particles released up to and including the restart step, counted in the uninterrupted run itself
@@ -210,10 +216,10 @@ def run_case(case):
         for rec in rs["records"]:
             ref = by_time.get(rec["time"])
             if ref is None:
-                if rec["time"] != float(S0 + n * DT):
-                    bad("records:extra", f"restarted run has a record at S+{(rec['time'] - S0) / DT} steps that the uninterrupted run lacks", k)
+                if rec["time"] != float(S0 + sign * n * DT):
+                    bad("records:extra", f"restarted run has a record at step {sign * (rec['time'] - S0) / DT} that the uninterrupted run lacks", k)
                 continue
-            step = (rec["time"] - S0) / DT
+            step = sign * (rec["time"] - S0) / DT
             if rec["vars"]["pid"].tolist() != ref["vars"]["pid"].tolist():
                 sig = "particles"
                 if set(rec["vars"]["tag"].tolist()) == set(ref["vars"]["tag"].tolist()) and len(rec["vars"]["pid"]) == len(ref["vars"]["pid"]):
@@ -239,7 +245,7 @@ def run_case(case):
                         ra = world.tosec(np.datetime64(fa["particle_units"][v].split("since")[1].strip().replace(" ", "T")))
                         rb = world.tosec(np.datetime64(fb["particle_units"][v].split("since")[1].strip().replace(" ", "T")))
                         a, b = a + ra, b + rb
-                    if j == len(names) - 1 and len(a) > len(b) and rs["records"][-1]["time"] == float(S0 + n * DT):
+                    if j == len(names) - 1 and len(a) > len(b) and rs["records"][-1]["time"] == float(S0 + sign * n * DT):
                         a = a[: len(b)]  # the warm run's extra record at `stop` finalises its last file later: more particles, same prefix
                     eq = lambda x, y: len(x) == len(y) and bool(np.all((np.abs(x - y) <= 1e-9 * np.maximum(1, np.abs(y))) | (np.isnan(x) & np.isnan(y))))  # noqa: E731
                     if not eq(a, b):
